@@ -14,6 +14,8 @@ import (
 )
 
 type FuncResult struct {
+	cache      *lineSyms
+	cacheOnce  sync.Once
 	Obs        map[string]string // replay observables: name -> SMT term over the entry state
 	AxLo, AxHi int // lines [AxLo,AxHi) of Facts are the global axioms of the spec files
 	Name     string
@@ -100,6 +102,18 @@ func (e *Engine) verifyFunc(name string) (*FuncResult, error) {
 		r.obls = append(r.obls, &Obligation{Name: name + "/vacuity/requires-sat", Kind: "vacuity", Func: name, NFacts: r.facts.Len(), Pc: "true", Goal: "false", Text: "precondition satisfiable (expected: not refutable)"})
 	}
 	r.execFunc(fr, st, args, binds)
+	// covers of the statements constrained by assert clauses
+	{
+		var ks []string
+		for k := range r.coverPcs {
+			ks = append(ks, k)
+		}
+		sort.Strings(ks)
+		for _, k := range ks {
+			r.obls = append(r.obls, &Obligation{Name: k, Kind: "vacuity", Func: name, Pos: r.coverPos[k], NFacts: r.facts.Len(), Pc: sOr(r.coverPcs[k]...), Goal: "false",
+				Text: "statement constrained by an assert clause is reachable on some path (expected: not refutable)"})
+		}
+	}
 	// unused anchors are a contract/code mismatch
 	if fr.contract != nil {
 		for _, ac := range fr.contract.Ats {
@@ -179,27 +193,64 @@ func smtTokens(l string, out map[string]bool) {
 // other axioms) with the rest of the query. Dropping hypotheses is always sound for a proof; it
 // keeps queries small and solver behaviour independent of unrelated spec files.
 func relevantFacts(facts []string, axLo, axHi int, extra ...string) []string {
+	return relevantFactsCached(nil, facts, axLo, axHi, extra...)
+}
+
+// lineSyms caches, per fact line of one function, the spec symbols it mentions.
+type lineSyms struct {
+	mu   sync.Mutex
+	syms [][]string
+}
+
+func (ls *lineSyms) get(facts []string, i int) []string {
+	ls.mu.Lock()
+	defer ls.mu.Unlock()
+	for len(ls.syms) <= i {
+		k := len(ls.syms)
+		var out []string
+		if !strings.HasPrefix(facts[k], "(declare-") {
+			t := map[string]bool{}
+			smtTokens(facts[k], t)
+			for sym := range t {
+				if specSymbols[sym] {
+					out = append(out, sym)
+				}
+			}
+		}
+		ls.syms = append(ls.syms, out)
+	}
+	return ls.syms[i]
+}
+
+func relevantFactsCached(cache *lineSyms, facts []string, axLo, axHi int, extra ...string) []string {
 	if axHi > len(facts) {
 		axHi = len(facts)
 	}
 	if axLo >= axHi {
 		return facts
 	}
+	if cache == nil {
+		cache = &lineSyms{}
+	}
 	// relevance is carried by the functions the spec files declare, not by the engine's own
 	// vocabulary (type tags, boxing, heap roots), which occurs in every query
-	declared := specSymbols
 	syms := map[string]bool{}
-	for i, l := range facts {
-		if i >= axLo && i < axHi && strings.HasPrefix(l, "(assert") {
+	for i := range facts {
+		if i >= axLo && i < axHi && strings.HasPrefix(facts[i], "(assert") {
 			continue
 		}
-		if strings.HasPrefix(l, "(declare-") {
-			continue
+		for _, sy := range cache.get(facts, i) {
+			syms[sy] = true
 		}
-		smtTokens(l, syms)
 	}
 	for _, l := range extra {
-		smtTokens(l, syms)
+		t := map[string]bool{}
+		smtTokens(l, t)
+		for sy := range t {
+			if specSymbols[sy] {
+				syms[sy] = true
+			}
+		}
 	}
 	type ax struct {
 		idx  int
@@ -210,15 +261,7 @@ func relevantFacts(facts []string, axLo, axHi int, extra ...string) []string {
 		if !strings.HasPrefix(facts[i], "(assert") {
 			continue
 		}
-		t := map[string]bool{}
-		smtTokens(facts[i], t)
-		var ss []string
-		for s := range t {
-			if declared[s] {
-				ss = append(ss, s)
-			}
-		}
-		axs = append(axs, ax{i, ss})
+		axs = append(axs, ax{i, cache.get(facts, i)})
 	}
 	keep := map[int]bool{}
 	for changed := true; changed; {
@@ -228,8 +271,8 @@ func relevantFacts(facts []string, axLo, axHi int, extra ...string) []string {
 				continue
 			}
 			hit := len(a.syms) == 0
-			for _, s := range a.syms {
-				if syms[s] {
+			for _, sy := range a.syms {
+				if syms[sy] {
 					hit = true
 					break
 				}
@@ -237,8 +280,8 @@ func relevantFacts(facts []string, axLo, axHi int, extra ...string) []string {
 			if hit {
 				keep[a.idx] = true
 				changed = true
-				for _, s := range a.syms {
-					syms[s] = true
+				for _, sy := range a.syms {
+					syms[sy] = true
 				}
 			}
 		}
@@ -286,10 +329,22 @@ func solveAll(workDir string, frs []*FuncResult, timeoutS int, jobs int) {
 				}
 				file := filepath.Join(workDir, fmt.Sprintf("o%04d.smt2", j.id))
 				o.File = file
-				qfacts := relevantFacts(j.fr.Facts[:o.NFacts], j.fr.AxLo, j.fr.AxHi, o.Pc, o.Goal)
+				qfacts := relevantFactsCached(j.fr.symCache(), j.fr.Facts[:o.NFacts], j.fr.AxLo, j.fr.AxHi, o.Pc, o.Goal)
 				writeQuery(file, qfacts, "(assert "+o.Pc+")", "(assert (not "+o.Goal+"))", "(check-sat)")
 				var res SolverResult
-				if strings.HasSuffix(o.Name, "!finding") || o.Kind == "vacuity" {
+				if o.Kind == "vacuity" {
+					// cover: refuting the path condition from the quantifier-free facts alone already
+					// shows the site is dead in the VC; a model of them is "not refuted" (quick and decisive
+					// for the contradictions that matter: an assumed false, a contradictory requires)
+					var qf []string
+					for _, l := range qfacts {
+						if !strings.Contains(l, "(forall ") && !strings.Contains(l, "(exists ") {
+							qf = append(qf, l)
+						}
+					}
+					writeQueryQF(file, qf, "(assert "+o.Pc+")", "(assert (not "+o.Goal+"))", "(check-sat)")
+					res = runSolver("z3-new", file, 3)
+				} else if strings.HasSuffix(o.Name, "!finding") {
 					// "is the known finding still there?": a quick look is enough, no answer means still there
 					res = runSolver("z3-new", file, 3)
 				} else {
@@ -405,7 +460,7 @@ func solveAll(workDir string, frs []*FuncResult, timeoutS int, jobs int) {
 						o.Candidate = r2.Model
 					}
 				}
-				if res.Status == "sat" {
+				if res.Status == "sat" && o.Kind != "vacuity" && !strings.HasSuffix(o.Name, "!finding") {
 					// rerun with model
 					writeQuery(file, qfacts, "(assert "+o.Pc+")", "(assert (not "+o.Goal+"))", "(check-sat)", "(get-model)")
 					r2 := runSolver(res.Solver, file, timeoutS)
@@ -471,4 +526,9 @@ func (e *Engine) funcsForProp(prop string) []string {
 	}
 	sort.Strings(out)
 	return out
+}
+
+func (fr *FuncResult) symCache() *lineSyms {
+	fr.cacheOnce.Do(func() { fr.cache = &lineSyms{} })
+	return fr.cache
 }
